@@ -4,7 +4,7 @@ import os
 from pathlib import Path
 
 V = Path(__file__).resolve().parent.parent
-out = V / "notes" / "benign_feedback"
+out = V / "notes" / os.environ.get("OUTDIR", "benign_feedback")
 out.mkdir(exist_ok=True)
 only = os.environ.get("PROPS", "").split()
 tot = {"green": 0, "red_no_input": 0, "red_with_input": 0, "other": 0}
@@ -13,7 +13,10 @@ for p in range(1, 21):
     if only and pid not in only:
         continue
     good, bad = [], []
+    ks = os.environ.get("ONLY_K", "").split()
     for d in sorted((V / "benign").glob(f"{pid}_b*")):
+        if ks and d.name.split("_")[1] not in ks:
+            continue
         if not (d / "result.json").exists():
             continue
         m = json.loads((d / "meta.json").read_text())
